@@ -419,12 +419,13 @@ def corners(opt, rnd, quick):
             out.append(({'PAR_min': a, 'PAR_max': b, 'PAR': a, 'bw_min': c, 'bw_max': d, 'bw': c}, [], 'random'))
     elif opt == 'SA':
         out += [({}, [], 'default'), ({'beta': 1}, [], 'beta=1'), ({'beta': 0}, [], 'beta=0'), ({'T': 0}, [], 'T=0'),
-                ({'T': 1e-300, 'beta': 1e-200}, [], 'underflow'), ({'T': 1e300, 'beta': 0.5}, [], 'huge'),
+                ({'T': 1e-300, 'beta': 1e-200}, [], 'underflow'), ({'T': 5e-324, 'beta': 0.5}, [], 'subnormal-to-zero'),
+                ({'T': 1e-310, 'beta': 1e-20}, [], 'subnormal-underflow'), ({'T': 3e-323, 'beta': 0.999}, [], 'subnormal-slow'), ({'T': 1e300, 'beta': 0.5}, [], 'huge'),
                 ({'T': 5, 'beta': 1.0}, [], 'float-1'), ({'T': 3.5, 'beta': 1.5}, [], 'beta>1 (no claim)')]
         for i in range(8 if quick else 40):
             out.append(({'T': round(10 ** rnd.uniform(-3, 3), 4), 'beta': round(rnd.uniform(0, 1), rnd.choice([2, 6, 17]))}, [], 'random'))
     elif opt == 'FA':
-        out += [({}, [], 'default'), ({'alpha': 0}, [], 'alpha=0'), ({'alpha': 1e-300}, [], 'tiny'),
+        out += [({}, [], 'default'), ({'alpha': 0}, [], 'alpha=0'), ({'alpha': 1e-300}, [], 'tiny'), ({'alpha': 5e-324}, [], 'subnormal'),
                 ({'alpha': 7.0}, [], 'large'), ({'alpha': 1e300}, [], 'huge')]
         for i in range(6 if quick else 30):
             out.append(({'alpha': round(10 ** rnd.uniform(-3, 2), 5)}, [], 'random'))
